@@ -23,7 +23,7 @@ def plan(tier, seed):
     n = 150 if tier == "quick" else 2500
     for k in range(n):
         be = ("numpy", "numpy", "c", "jax")[k % 4]
-        specs.append({"klass": "subsets", "i": k, "backend": be, "delta": (1e-8, 1e-3)[(k // 4) % 2], "fill": k >= 16})
+        specs.append({"klass": "subsets", "i": k, "backend": be, "delta": (1e-8, 1e-3, 0.5)[(k // 4) % 3], "fill": k >= 16, "shapes": ["linear_k", "affine"] if k % 3 == 0 else None})
     for k in range(4 if tier == "quick" else 20):
         specs.append({"klass": "alias_direct", "i": k, "backend": "numpy", "delta": 1e-8})
     for s in specs:
@@ -68,7 +68,7 @@ def run_case(spec, ctx):
     out = {"violations": [], "counters": {}, "evaluations": 0, "nontrivial": False, "status": "held"}
     cn = out["counters"]
     be, delta = spec["backend"], spec["delta"]
-    text = spec.get("text") or grlmodels.gen_grl_model(rng, n_states=rng.choice([2, 3, 3, 4]))[0]
+    text = spec.get("text") or grlmodels.gen_grl_model(rng, n_states=rng.choice([2, 3, 3, 4]), shapes=spec.get("shapes"))[0]
     out["hash"] = models.structural_hash(text) + f":{be}"
     ref = RefModel.from_text(text)
     if ref.ill_formed():
@@ -87,6 +87,15 @@ def run_case(spec, ctx):
     if len(pts) < 2:
         out.update(status="skipped", reason="too few decidable points")
         return out
+    # place the linear coefficient k on both sides of the guard |g| > delta (g = k for the linear shapes)
+    if "k" in ref.params:
+        extra = []
+        for pt, res, dec in pts[:2]:
+            for kv in (delta / 2, -delta / 2, delta * (1 + 1e-3), -delta * (1 + 1e-3), 1e-6 if delta > 1e-6 else 1.0):
+                p2 = dict(pt, k=kv)
+                r2, d2 = ref.evaluate(p2)
+                extra.append((p2, r2, d2))
+        pts = pts + extra
     visible = False
     compared = 0
     sets_done = 0
